@@ -371,6 +371,7 @@ func c13World(rc *kernel.RunCtx) {
 	t := rc.T
 	k := kernel.New(t, kernel.M1, 1<<30)
 	kernel.Active = k
+	takeLateUse() // nothing from an earlier run
 	defer lockAware(k)()
 	kn := drawKnobs(t, rc.Run)
 	kn.OwnBuf = false
@@ -407,6 +408,7 @@ func c13World(rc *kernel.RunCtx) {
 		park := func(kind string, n int) { k.Park(c.name, kind, fmt.Sprint(n), nil) }
 		c.w = &core{fault: c.fault, sticky: true, park: park, limit: 512 << 10}
 		k.GoNamed(c.name, func() {
+			defer func() { c.w.done = true }()
 			k.Park(c.name, "start", "", nil)
 			ctx := templ.InitializeContext(context.Background())
 			for _, s := range c.specs {
@@ -509,6 +511,9 @@ func c13World(rc *kernel.RunCtx) {
 		rc.Fail(sig, "%s (%d contexts interleaved): %s\n specs: %v\n want: %s\n got:  %s\n document: %s", c.name, nctx, detail, c.specs, strings.Join(want, " "), strings.Join(got, " "), kernel.Short(string(c.w.got), 600))
 	}
 	k.Count("model_tokens_checked", int64(calls))
+	if lu := takeLateUse(); lu != "" {
+		rc.Fail("C13/writer-used-after-its-render-returned", "%s", lu)
+	}
 	rc.Finish(k)
 	rc.Res.Nontriv = calls >= 4
 	rc.Res.Key = rc.Res.LogHash
